@@ -620,6 +620,45 @@ def oracles_for(case):
     return bad
 
 
+def shrink(case, budget=400):
+    """Greedy: drop cells while the direct oracles still complain (keeps replays small)."""
+    from bermuda import Triangle
+
+    cells = list(case["tri"].cells)
+
+    def complains(trial):
+        try:
+            with warnings.catch_warnings():
+                warnings.simplefilter("ignore")
+                c2 = {"label": case["label"], "basis": case["basis"], "info": case["info"], "tri": Triangle(trial)}
+            return bool(oracles_for(c2))
+        except Exception:  # noqa: BLE001
+            return False
+
+    progress = True
+    while progress and budget > 0:
+        progress = False
+        # whole rows first, then single cells
+        for r in rows_of(cells):
+            trial = [c for c in cells if not any(c is y for y in r)]
+            budget -= 1
+            if trial and complains(trial):
+                cells, progress = trial, True
+        i = 0
+        while i < len(cells) and budget > 0 and len(cells) > 1:
+            budget -= 1
+            trial = cells[:i] + cells[i + 1:]
+            if complains(trial):
+                cells, progress = trial, True
+            else:
+                i += 1
+    with warnings.catch_warnings():
+        warnings.simplefilter("ignore")
+        out = {"label": case["label"], "basis": case["basis"], "info": case["info"], "tri": Triangle(cells)}
+    out["complaints"] = oracles_for(out)
+    return out
+
+
 def translate_and_prove(ctx):
     import shutil
 
@@ -704,10 +743,13 @@ def run(ctx):
                 seen.add(key)
                 ctx.nontriv(key)
         bad = oracles_for(c)
-        if bad and n_viol < 5:
+        if bad and n_viol < 3:
             n_viol += 1
+            small = shrink(c)
+            bad = small["complaints"] or bad
             ctx.violation("impl-violation", f"C04 fails on the implementation ({c['label']}): {bad[0]}",
-                          case_data(c, {"complaints": bad}), found_input=True)
+                          case_data(small, {"complaints": bad, "shrunk_from_cells": len(c["tri"].cells)}),
+                          found_input=True)
     for c in cases[:3]:
         ctx.sample({"label": c["label"], "info": c["info"], "n_cells": len(c["tri"].cells),
                     "first": res_summary(c["r1"]), "second": res_summary(c["r2"])})
